@@ -534,7 +534,7 @@ def analytic_case(draw):
     sgn = lambda: draw(st.sampled_from([1.0, -1.0]))
     if fam == "ellipse":
         c.update(a=f(0.5, 2.0), b=f(0.5, 2.0), zeta=f(0.0, 0.5), om=f(0.5, 1.5), phi=f(0.0, 6.25),
-                 rho=sgn() * f(0.3, 0.75), T0=f(-2.0, 2.0), L=f(3.0, 6.0))
+                 rho=sgn() * f(0.3, 0.75), T0=f(-2.0, 2.0), L=f(5.0, 9.0))
         nk = draw(st.sampled_from(["axis-x", "axis-y", "axis-vx", "oblique"]))
         if nk == "oblique":
             n = [f(-1.0, 1.0) for _ in range(6)]
@@ -707,6 +707,10 @@ def eval_analytic(case, ctx):
         ctx.case(cls="analytic:window-too-short")
         return
     fails = []
+    # on-surface tolerance in units of g (the normal may be scaled by 1e+-6): a sample this close to the plane is itself
+    # a documented hit, at most tol_on/|g'| (<< dedup_time_tol) away from the crossing.  The point dedup is switched off:
+    # a periodic curve returns to the same plane point, and crossings one period apart are then "nearby" by design.
+    tol_on = 1e-12 * min(1.0, cv.gscale)
     E = []          # per level: max time error
     nphase = 8
     worst = {"ratio": 0.0}
@@ -718,8 +722,8 @@ def eval_analytic(case, ctx):
             X = cv.state(t)
             try:
                 hits = be.detect_on_trajectory(t, X, normal=cv.normal.copy(), offset=cv.offset, plane_coords=("y", "vy"),
-                                               interp_kind=interp, segment_refine=r, tol_on_surface=1e-12,
-                                               dedup_time_tol=1e-9, dedup_point_tol=1e-12, max_hits_per_traj=None,
+                                               interp_kind=interp, segment_refine=r, tol_on_surface=tol_on,
+                                               dedup_time_tol=1e-9, dedup_point_tol=0.0, max_hits_per_traj=None,
                                                newton_max_iter=int(c["newton"]), direction=d)
             except Exception as e:
                 ctx.case(cls="analytic:raised")
@@ -752,7 +756,7 @@ def eval_analytic(case, ctx):
                     Bt2 = (dt ** 4 * cv.M4g / 384.0 + dt * 0.25 * dg) / m1
                     Bx2 = dt ** 4 * cv.M4x / 384.0 + dt * 0.25 * dx + cv.M1x * Bt2
                     Bt, Bx = max(Bt, Bt2), max(Bx, Bx2)
-                floor_t = 256 * EPS * (abs(ts) + cv.gscale / m1)
+                floor_t = 256 * EPS * (abs(ts) + cv.gscale / m1) + tol_on / m1
                 floor_x = 256 * EPS * (cv.gscale + cv.M1x * abs(ts)) + cv.M1x * floor_t
                 et = abs(hh.time - ts)
                 ex = float(np.max(np.abs(np.asarray(hh.state) - cv.state(np.array([ts]))[0])))
@@ -867,10 +871,10 @@ def run(ctx):
         for c in _probe_cases():
             eval_sample(c, ctx)
     maxn = ctx.scale(24, 48)
-    explore(ctx, "sample", sample_case(maxn=maxn), eval_sample, ctx.share(ctx.scale(24000, 800000)))
-    explore(ctx, "sample-short", sample_case(maxn=5), eval_sample, ctx.share(ctx.scale(8000, 300000)))
-    explore(ctx, "analytic", analytic_case(), eval_analytic, ctx.share(ctx.scale(400, 12000)))
-    explore(ctx, "engine", engine_case(), eval_engine, ctx.share(ctx.scale(1200, 40000)))
+    explore(ctx, "sample", sample_case(maxn=maxn), eval_sample, ctx.share(ctx.scale(20000, 300000)))
+    explore(ctx, "sample-short", sample_case(maxn=5), eval_sample, ctx.share(ctx.scale(6000, 120000)))
+    explore(ctx, "analytic", analytic_case(), eval_analytic, ctx.share(ctx.scale(320, 6000)))
+    explore(ctx, "engine", engine_case(), eval_engine, ctx.share(ctx.scale(1000, 16000)))
 
 
 def replay(ctx, payload):
